@@ -607,11 +607,11 @@ func isFirstWord(v ssa.Value, depth int) bool {
 		ok, n := true, 0
 		eachInstr(g, func(_ *ssa.BasicBlock, _ int, in ssa.Instruction) {
 			if ret, isRet := in.(*ssa.Return); isRet && len(ret.Results) == 1 {
-				if isNilConst(ret.Results[0]) {
+				if isNilConst(returnedValues(ret)[0]) {
 					return
 				}
 				n++
-				if !isFirstWord(ret.Results[0], depth+1) {
+				if !isFirstWord(returnedValues(ret)[0], depth+1) {
 					ok = false
 				}
 			}
